@@ -61,6 +61,10 @@ CHECKS = {
    text="Model-based testing of a boundary clock (slave port + 1-3 master ports sharing the daemon's TlvForwarder wired as in main.rs, or a literal-contract provider): generated Announces from parent / other acceptable / unacceptable senders with TLVs of every type class and sizes at and around the remaining room, frames to 2048 bytes, path traces of 0..200 identities with and without the own identity, forwarder lag beyond 128 entries; every emitted Announce is compared with an exact reference forwarding queue per master port (order, at most once, unmodified, only parent + propagating, every TLV that fits, PATH_TRACE = parent's path + own identity, size <= 1024, decodable, always sent); loop Announces must have no effect at all. Plus an exhaustive size sweep (every even length 0..1100 x 11 path settings).",
    note="One known finding (received PATH_TRACE TLV blocking the queue for paths >= 58 identities) is classified by its own signature and reported as KNOWN-FINDING. Under forwarder overflow only order / at-most-once / integrity are asserted.",
    technique="model-based property testing against a reference queue + exhaustive size sweep"),
+ "C12": dict(level="exploration", design="DESIGN.md §4 C12",
+   text="Bounded-horizon progress under a faithful host timer model: a generated prefix history (timers fire only if armed, at their deadline; lost transmit timestamps; masters coming and going; P2P faults and recoveries; run-time slave-only switches) is continued with (a) total silence and (b) a steadily announcing better master, both driven by the daemon's loop (timers as armed, periodic BMCA, immediate transmit timestamps). (a): every non-faulty port is Master within 2*receiptTimeout+6 announce intervals and then emits Announce and Sync/Follow_Up at the configured rates (+-1 per 8 intervals); slave-only instances listen with a live receipt timer. (b): port 1 is slave of that master within the bound and its delay requests are never more than two delay intervals apart.",
+   note="Liveness is checked as bounded-horizon safety with explicit bounds. One known finding (port recovered from Faulty without receipt timer) has its own signature and a deterministic reproducer.",
+   technique="stateful property-based testing with a discrete-event host model and bounded-progress oracle"),
 }
 NA_REASON = "check not built yet in this round (design in DESIGN.md §4); will be claimed once its check exists"
 
